@@ -313,7 +313,22 @@ pub fn grid(tier: Tier) -> Vec<Sys> {
 pub fn run(tier: Tier) -> Report {
     let mut rep = Report::new("C15", tier, "exploration");
     let g = grid(tier);
-    let total = par_cases(&g, |_, s| check_system(s, s.rows.len() <= 4));
+    let total = par_cases(&g, |i, s| {
+        let mut o = check_system(s, s.rows.len() <= 4);
+        // every 3rd system with a matrix of at least 2x2 once more with column-major storage
+        if s.n >= 2 && s.rows.len() >= 2 && i % 3 == 0 {
+            super::c10::FORTRAN.with(|f| f.set(true));
+            let mut o2 = check_system(s, false);
+            super::c10::FORTRAN.with(|f| f.set(false));
+            for v in o2.violations.iter_mut() {
+                v.tags.insert("storage".into(), "column_major".into());
+            }
+            o2.vcount = o2.vcount.into_iter().map(|(k, c)| (format!("{k}+cm"), c)).collect();
+            o.add("systems_column_major", 1);
+            o.merge(o2);
+        }
+        o
+    });
     // rows whose coefficients are tiny but not zero (they are constraints, not tautologies)
     let tiny = 2f64.powi(-60);
     let mut gt = vec![];
